@@ -346,6 +346,15 @@ func (c *c08Runner) observe(m *c08Model) []string {
 				out.Body.Close()
 				an = append(an, "object-exists-without-valid-complete")
 			}
+			// ... and no part of an unfinished upload answers for the key either
+			for _, pn := range []int32{1, 5} {
+				pn := pn
+				if h, herr := p.HeadObject(st.ctx(), &s3.HeadObjectInput{Bucket: sp(c08Bucket), Key: &key, PartNumber: &pn}); herr == nil {
+					_ = h
+					an = append(an, "head-by-part-number-answers-for-a-key-without-object")
+					break
+				}
+			}
 			continue
 		}
 		if err != nil {
